@@ -143,9 +143,7 @@ class NpRandom:
             out.append(pop[cand[j]])
             if not replace:
                 cand.pop(j)
-        import numpy
-
-        return numpy.array(out) if out and not isinstance(out[0], tuple) else out
+        return out  # a plain list: CrossHair wraps sets built from numpy arrays in ShellMutableSet proxies
 
 
 class NpWith:
